@@ -33,6 +33,14 @@ def run(pid, tier, seed):
     # 1. design-level model checking
     r = vlib.tlc_must_pass(vlib.run_tlc("replay", "MC_Num", "MC_Num.cfg", workers=2), "Num")
     rep.add_tlc(r)
+    # implementation-level mask model (words of B bits): refines the window set with the repaired
+    # top-word rule, and the pinned rule must violate it (vacuity guard)
+    for cfg in ("MC_ReplayMask5.cfg", "MC_ReplayMask7.cfg", "MC_ReplayMask8.cfg"):
+        rep.add_tlc(vlib.tlc_must_pass(vlib.run_tlc("replay", "ReplayMask", cfg, workers=2), cfg))
+    rm = vlib.run_tlc("replay", "ReplayMask", "MC_ReplayMask7Pinned.cfg", workers=2)
+    if "MaskIsWindow" not in rm.violated:
+        raise vlib.Inconclusive("vacuity guard: the pinned top-word mask rule should violate MaskIsWindow")
+    rep.notes.append("vacuity guard: ReplayMask with the pinned msbMask rule violates MaskIsWindow (W=7, B=4) as expected")
     d = vlib.scratch("graph-")
     dot = os.path.join(d, "g.dot")
     mc_cfg = "MC_Replay.cfg" if tier == "quick" else "MC_ReplayBig.cfg"
